@@ -4,6 +4,8 @@
 package c15
 
 import (
+	"bytes"
+	"encoding/binary"
 	"fmt"
 	"os"
 	"strings"
@@ -33,13 +35,15 @@ type Case struct {
 	K      int      `json:"k,omitempty"`
 	Origin string   `json:"origin"`
 	Ops    []string `json:"ops,omitempty"`
+	// Reader: the reader in front of the input (default: bytes.Reader); fault readers fail with a non-EOF error at a fixed offset
+	Reader worker.ReaderSpec `json:"reader"`
 }
 
 var levels = []string{"trace", "debug", "info", "warn", "error", "fatal", "disabled", "panic"}
 
 func eval(c Case) *pbt.Fail {
 	wd := worker.Watchdog(len(c.Input))
-	def := cl.Do(worker.Req{Entry: c.Entry, Input: c.Input, K: c.K}, wd)
+	def := cl.Do(worker.Req{Entry: c.Entry, Input: c.Input, K: c.K, Reader: c.Reader}, wd)
 	if def.Hung || def.Aborted != "" {
 		rec.Inconclusive(1)
 		return nil
@@ -53,7 +57,7 @@ func eval(c Case) *pbt.Fail {
 	}
 	records := 0
 	for _, lv := range levels {
-		r := cl.Do(worker.Req{Entry: c.Entry, Input: c.Input, K: c.K, Log: lv}, wd)
+		r := cl.Do(worker.Req{Entry: c.Entry, Input: c.Input, K: c.K, Log: lv, Reader: c.Reader}, wd)
 		if r.Hung || r.Aborted != "" {
 			rec.Inconclusive(1)
 			continue
@@ -80,6 +84,9 @@ func eval(c Case) *pbt.Fail {
 	errPath := def.Err != "<nil>"
 	nt := records > 0 || errPath
 	cls := []string{"entry:" + c.Entry, "origin:" + c.Origin}
+	if c.Reader.Mode != "" {
+		cls = append(cls, "reader:"+c.Reader.Mode+"/"+c.Reader.FaultErr)
+	}
 	if records > 0 {
 		cls = append(cls, "trace-produced-records")
 	}
@@ -127,7 +134,81 @@ func cr3Counts(rt *rapid.T) []byte {
 	return append(out, mdat.Serialise(len(out))...)
 }
 
+// lyingWrapper: a HEIF or CR3 file in which a run of metadata boxes sits inside a box with a wrong size: whether the
+// reader stops at it or reads on inside it must not depend on the log level.
+func lyingWrapper(rt *rapid.T) ([]byte, string) {
+	f := gen.GenExif(rt, gen.Options{Unbuffered: true, MaxForeign: 1})
+	var desc string
+	if rapid.Bool().Draw(rt, "heif") {
+		data := gen.HEIFWrap(rt, func(meta *gen.Box) { desc = gen.WrapLying(rt, meta) })(f.Enc.II)
+		return data, "heif " + desc
+	}
+	data, _ := gen.CR3Wrap(rt, func(moov, canon *gen.Box) {
+		if rapid.Bool().Draw(rt, "in.canon") {
+			desc = gen.WrapLying(rt, canon)
+		} else {
+			desc = gen.WrapLying(rt, moov)
+		}
+	})([4][]byte{f.Enc.II, nil, nil, nil})
+	return data, "cr3 " + desc
+}
+
+// previewCR3: a CR3 with an honest preview box (the only place the preview package logs is a failed read inside it).
+func previewCR3(rt *rapid.T) ([]byte, int, int) {
+	jpegLen := rapid.SampledFrom([]int{10, 300, 3000, 9000}).Draw(rt, "have")
+	f := make([]byte, 16)
+	binary.BigEndian.PutUint16(f[4:], 1)
+	binary.BigEndian.PutUint16(f[6:], 160)
+	binary.BigEndian.PutUint16(f[8:], 120)
+	binary.BigEndian.PutUint16(f[10:], 1)
+	binary.BigEndian.PutUint32(f[12:], uint32(jpegLen))
+	prvw := &gen.Box{Type: "PRVW", Data: append(f, bytes.Repeat([]byte{0xd5}, jpegLen)...)}
+	pre := &gen.Box{Type: "uuid", Data: append(append([]byte{}, gen.UUIDPreview...), 0, 0, 0, 0, 0, 0, 0, 1), Kids: []*gen.Box{prvw}}
+	canon := &gen.Box{Type: "uuid", Data: append([]byte{}, gen.UUIDCanon...), Kids: []*gen.Box{{Type: "CNCV", Data: make([]byte, 30)}}}
+	if rapid.Bool().Draw(rt, "cmt") {
+		e := gen.GenExif(rt, gen.Options{Unbuffered: true, MaxForeign: 1})
+		canon.Kids = append(canon.Kids, &gen.Box{Type: "CMT1", Data: e.Enc.II})
+	}
+	moov := &gen.Box{Type: "moov", Kids: []*gen.Box{canon}}
+	xp := &gen.Box{Type: "uuid", Data: append(append([]byte{}, gen.UUIDXPacket...), []byte("<x:xmpmeta xmlns:x=\"adobe:ns:meta/\"></x:xmpmeta>")...)}
+	var out []byte
+	start := 0
+	for _, b := range []*gen.Box{gen.Ftyp("crx ", 1, "crx ", "isom"), moov, xp, pre, {Type: "mdat", Data: make([]byte, 64)}} {
+		if b == pre {
+			start = len(out)
+		}
+		out = append(out, b.Serialise(len(out))...)
+	}
+	return out, start, start + 8 + 24 + 24 + jpegLen
+}
+
+// faultReader: the reader fails with a non-EOF error (or ends) at a drawn offset.
+func faultReader(rt *rapid.T, lo, hi int) worker.ReaderSpec {
+	if hi < lo {
+		hi = lo
+	}
+	return worker.ReaderSpec{Mode: "fault", FaultAt: rapid.IntRange(lo, hi).Draw(rt, "fault.at"), FaultErr: rapid.SampledFrom([]string{"custom", "custom", "unexpected", "zero-then-eof"}).Draw(rt, "fault.err")}
+}
+
 func genCase(rt *rapid.T) Case {
+	if gen.Chance(rt, "previewfault?", 0.1) {
+		data, from, to := previewCR3(rt)
+		c := Case{Input: data, Origin: "cr3-preview", K: 4, Entry: rapid.SampledFrom([]string{"PreviewCR3", "PreviewCR3", "BMFF", "Decode"}).Draw(rt, "entry")}
+		switch rapid.IntRange(0, 3).Draw(rt, "where") {
+		case 0: // intact
+		case 1:
+			c.Reader = faultReader(rt, 0, len(data))
+		default:
+			c.Reader = faultReader(rt, from, to)
+		}
+		return c
+	}
+	if gen.Chance(rt, "lyingwrapper?", 0.15) {
+		data, desc := lyingWrapper(rt)
+		c := Case{Input: data, Origin: "lying-wrapper", K: 4, Ops: []string{desc}}
+		c.Entry = rapid.SampledFrom([]string{"BMFF", "BMFF", "Decode", "DecodeCR3", "DecodeHeif", "PreviewCR3"}).Draw(rt, "entry")
+		return c
+	}
 	if gen.Chance(rt, "cr3counts?", 0.15) {
 		c := Case{Input: cr3Counts(rt), Origin: "cr3-counts", K: 3}
 		c.Entry = rapid.SampledFrom([]string{"Decode", "DecodeCR3", "PreviewCR3", "BMFF"}).Draw(rt, "entry")
@@ -149,6 +230,9 @@ func genCase(rt *rapid.T) Case {
 	default:
 		c.Input, c.Ops = gen.Mutate(rt, in.Data, in.Sites)
 		c.Origin += "+mutated"
+	}
+	if gen.Chance(rt, "fault?", 0.15) {
+		c.Reader = faultReader(rt, 0, len(c.Input))
 	}
 	return c
 }
